@@ -96,7 +96,8 @@ def draw_curve_spec(rng, models=None, npts=(150, 400, 1000, 2500),
             "baseline": float(rng.uniform(-.5, .5) * span),
             "n": int(npts[int(rng.integers(len(npts)))]),
             "zmax": zmax, "zmin": zmin,
-            "law": ["uniform", "jitter", "quadratic"][int(rng.integers(3))],
+            "law": ["uniform", "jitter", "quadratic", "jitter2"][
+                int(rng.integers(4))],
             "snr": float(noise_snr[int(rng.integers(len(noise_snr)))]),
             "with_tip": bool(rng.integers(2)) if with_tip is None
             else with_tip,
